@@ -24,7 +24,7 @@ func init() {
 	Register(&Prop{
 		ID: "C02",
 		Rule: "pipelines of 1..4 requests (HTTP/1.1, or HTTP/1.0 with keep-alive) whose bodies (Content-Length, chunked, or chunked with a malformed chunk terminator; sizes around 0, the 8 KiB prefetch and MaxRequestBodySize) consist of well-formed 'GET /smuggled' requests, " +
-			"handlers reading none / k / all of the body (streaming on and off), taking it through Request.Body(), dropping it with ResetBody / SetBody, going back to it after EOF (another Read, PostArgs, Body), and ending normally, with an error status, or through TimeoutError / TimeoutErrorWithResponse, Expect: 100-continue accepted or rejected by ContinueHandler or ExpectHandler, random arrival chunking, followed by a sentinel request; " +
+			"handlers reading none / k / all of the body (streaming on and off), taking it through Request.Body(), dropping it with ResetBody / SetBody, going back to it after EOF (another Read, PostArgs, Body), resetting or rewriting the framing fields of the request header, and ending normally, with an error status, or through TimeoutError / TimeoutErrorWithResponse, Expect: 100-continue accepted or rejected by ContinueHandler or ExpectHandler, random arrival chunking, followed by a sentinel request; " +
 			"monitor: every final response answers a dispatched request or is the one legitimate refusal, and the dispatched targets are a prefix of the planned ones (a body byte parsed as a request shows up as /smuggled or as garbage); non-trivial = some request carries a body; distinct = distinct input",
 		Parallel: true,
 		Build: func(kind string, a [][]byte) *Case {
@@ -56,7 +56,7 @@ func init() {
 				bodies = append(bodies, body)
 				// may the server answer THIS request with an error response instead of dispatching it?
 				rejectable = append(rejectable, (f[4] == "1" && (cfg.Continue == "reject" || cfg.Continue == "expect417")) ||
-					(cfg.MaxBody > 0 && size > cfg.MaxBody) || f[2] == "chx" || f[4] == "1")
+					(cfg.MaxBody > 0 && size > cfg.MaxBody) || f[2] == "chx" || f[4] == "1" || !(f[0] == "GET" || f[0] == "POST" || f[0] == "PUT"))
 				if len(f) > 6 && f[6] == "10" && f[2] == "cl" {
 					// an HTTP/1.0 keep-alive request (it may carry an expectation all the same)
 					fmt.Fprintf(&stream, "%s %s HTTP/1.0\r\nHost: h\r\nConnection: keep-alive\r\n", f[0], uri)
@@ -209,7 +209,7 @@ func init() {
 					}
 					end := ""
 					if r.Chance(20) {
-						end = r.Pick([]string{"te=1", "ter=0", "te=1", "sc=503", "bc=1", "bc=1", "rsb=1", "rsb=1", "sb=1", "again=1", "again=1"})
+						end = r.Pick([]string{"te=1", "ter=0", "te=1", "sc=503", "bc=1", "bc=1", "rsb=1", "rsb=1", "sb=1", "again=1", "again=1", "rqh=reset", "rqh=cl0", "rqh=del"})
 					}
 					ver := ""
 					if r.Chance(12) {
